@@ -37,7 +37,7 @@ func c01Params(e *Env) fwdParams {
 		MaxInflight:  1 + c.Choose("inflight", 8),
 		ErrPerMille:  []int{300, 0, 700}[c.Choose("errrate", 3)],
 		Faults:       3,
-		Kinds:        []int{40, 8, 20, 8, 4, 3, 2, 2, 2, 2},
+		Kinds:        []int{40, 8, 20, 8, 4, 3, 2, 2, 2, 2, 2, 2},
 		Compression:  []string{"", "", "lz4", "snappy"},
 		Versions:     []primitive.ProtocolVersion{primitive.ProtocolVersion4, primitive.ProtocolVersion4, primitive.ProtocolVersion3},
 		Disconnects:  true,
